@@ -473,6 +473,8 @@ def merge_to_number(desired_chunks, max_number):
     ]
     heapq.heapify(heap)
 
+    # Merged-away entries are marked with None (a width of 0 is a legitimate
+    # chunk and cannot serve as the marker)
     chunks = list(desired_chunks)
 
     while nmerges > 0:
@@ -480,9 +482,9 @@ def merge_to_number(desired_chunks, max_number):
         width, i, j = heapq.heappop(heap)
         # If interval was made invalid by another merge, recompute
         # it, re-insert it and retry.
-        if chunks[j] == 0:
+        if chunks[j] is None:
             j += 1
-            while chunks[j] == 0:
+            while chunks[j] is None:
                 j += 1
             heapq.heappush(heap, (chunks[i] + chunks[j], i, j))
             continue
@@ -490,12 +492,12 @@ def merge_to_number(desired_chunks, max_number):
             heapq.heappush(heap, (chunks[i] + chunks[j], i, j))
             continue
         # Merge
-        assert chunks[i] != 0
-        chunks[i] = 0  # mark deleted
+        assert chunks[i] is not None
+        chunks[i] = None  # mark deleted
         chunks[j] = width
         nmerges -= 1
 
-    return tuple(filter(None, chunks))
+    return tuple(c for c in chunks if c is not None)
 
 
 def find_merge_rechunk(old_chunks, new_chunks, block_size_limit):
